@@ -1,7 +1,7 @@
 """Shared driver for the clustering properties (C01, C02, C09, C10): generators, real-code runner
 with recorded randomness, distance matrices as exact rationals, Coq terms for the model, and an
 independent Python statement of the invariants (the oracle)."""
-import hashlib, itertools, signal, threading
+import hashlib, itertools, signal, struct, threading
 from fractions import Fraction as F
 import numpy as np
 from core import cn, cq, cb, clist, copt
@@ -88,7 +88,9 @@ def layout_of(A, layout):
     raise ValueError(layout)
 
 
-def make_X(case):
+def make_pool(case):
+    """the data followed by the `vinit` virtual frames (initial centres that are NOT frames of the data), as one
+    C-contiguous array / md.Trajectory: rows 0..n-1 are the data, rows n.. the supplied centre points"""
     if case.get("traj"):
         # an md.Trajectory whose frames are told apart by their time stamp; the metric is a user-supplied
         # float64 callable (an arbitrary distance table), as for RMSD-like metrics on structures
@@ -98,7 +100,18 @@ def make_X(case):
         top.add_atom("CA", md.element.carbon, top.add_residue("ALA", top.add_chain()))
         return md.Trajectory(np.zeros((n, 1, 3), dtype=np.float32), top, time=np.arange(n, dtype=float))
     if case["metric"] == "matrix":
-        return layout_of(np.arange(len(case["M"]), dtype=float).reshape(-1, 1), case.get("layout"))
+        return np.arange(len(case["M"]), dtype=float).reshape(-1, 1)
+    A = np.array(case["X"], dtype=case.get("dtype", "float64"))
+    return np.concatenate([A, np.array(case["init_pts"], dtype=A.dtype)]) if case.get("vinit") else A
+
+
+def make_X(case):
+    if case.get("vinit"):
+        Z = make_pool(case)[:case["n"]]
+        return Z if case.get("traj") else layout_of(np.ascontiguousarray(Z), case.get("layout"))
+    if case.get("traj") or case["metric"] == "matrix":
+        Z = make_pool(case)
+        return Z if case.get("traj") else layout_of(Z, case.get("layout"))
     A = np.array(case["X"], dtype=case.get("dtype", "float64"))
     if case.get("scale_exp"):                 # tiny length scale: coordinates x 2^-e (exact in float32/64)
         assert A.dtype.kind == "f", "tiny-scale cases need a float dtype"
@@ -195,13 +208,15 @@ def xhash(X):
     return h.hexdigest()
 
 
+def _same_frame(c, x):
+    if hasattr(c, "time"):
+        return len(c) == 1 and float(c.time[0]) == float(x.time[0]) and np.array_equal(c.xyz, x.xyz)
+    return np.array_equal(np.asarray(c), np.asarray(x))
+
+
 def canon(result, X):
     ci = [int(i) for i in result.center_indices]
-    def same(c, i):
-        if hasattr(c, "time"):
-            return len(c) == 1 and float(c.time[0]) == float(X[i].time[0]) and np.array_equal(c.xyz, X[i].xyz)
-        return np.array_equal(np.asarray(c), np.asarray(X[i]))
-    cen_ok = len(result.centers) == len(ci) and all(same(c, i) for c, i in zip(result.centers, ci))
+    cen_ok = len(result.centers) == len(ci) and all(_same_frame(c, X[i]) for c, i in zip(result.centers, ci))
     return {"ctrs": ci, "asg": [int(a) for a in result.assignments],
             "dst": [str(F(float(d))) for d in result.distances], "centers_are_frames": bool(cen_ok)}
 
@@ -262,7 +277,10 @@ class _Init:
         from enspara.cluster import kcenters as KC
         self.X, self.r0, self.obj = X, None, None
         self.form = form or c.get("init_form") or "array"
-        if c.get("init_pts") is not None:      # initial centres that are NOT frames of the data (e.g. centroids)
+        if c.get("vinit"):                     # initial centres that are NOT frames of the data: rows n.. of the pool
+            P = make_pool(c)[c["n"]:]
+            self.obj = P if self.form == "array" else [P[j] for j in range(len(P))]
+        elif c.get("init_pts") is not None:    # initial centres that are NOT frames of the data (e.g. centroids)
             self.obj = np.array(c["init_pts"], dtype=X.dtype)
         elif c.get("init") is not None:
             idx = list(c["init"])
@@ -270,6 +288,8 @@ class _Init:
                 self.obj = X[idx]
             elif self.form == "list":
                 self.obj = [X[i] for i in idx]
+            elif self.form == "estimator":
+                pass                           # filled in by adopt(): est.centers_ of an earlier fit of the estimator under test
             elif self.form == "result":
                 # an earlier clustering with exactly these centres; its list of centre frames is handed on
                 self.r0 = KC.kcenters(X, metric, init_centers=X[idx], n_clusters=len(idx))
@@ -277,6 +297,10 @@ class _Init:
                 self.r0_snap = (canon(self.r0, X), len(self.r0.centers))
             else:
                 raise ValueError(self.form)
+        self.snap = self._snapshot()
+
+    def adopt(self, obj):
+        self.obj = obj
         self.snap = self._snapshot()
 
     def _snapshot(self):
@@ -305,17 +329,87 @@ class _Init:
         return out
 
 
+def _attr_problems(est, when):
+    """the public attributes labels_ / distances_ / center_indices_ / centers_ of a fitted estimator read now, against
+    its result_ (plain strings; empty when they agree)"""
+    out = []
+    res = est.result_
+    try:
+        if not np.array_equal(np.asarray(est.labels_), np.asarray(res.assignments)):
+            out.append("%s: labels_ %s is not result_.assignments %s" % (when, _short(est.labels_), _short(res.assignments)))
+        if not np.array_equal(np.asarray(est.distances_), np.asarray(res.distances)):
+            out.append("%s: distances_ %s is not result_.distances %s" % (when, _short(est.distances_), _short(res.distances)))
+        if [int(i) for i in est.center_indices_] != [int(i) for i in res.center_indices]:
+            out.append("%s: center_indices_ %s is not result_.center_indices %s" % (
+                when, _short(est.center_indices_), _short(res.center_indices)))
+        ca, cb_ = est.centers_, res.centers
+        if len(ca) != len(cb_) or not all(_same_frame(a, b) for a, b in zip(ca, cb_)):
+            out.append("%s: centers_ (%d centres) is not result_.centers (%d centres)" % (when, len(ca), len(cb_)))
+    except Exception as ex:
+        out.append("%s: reading the attributes raised %s: %s" % (when, type(ex).__name__, str(ex)[:100]))
+    return out
+
+
+def _short(a):
+    return str([float(v) if float(v) != int(v) else int(v) for v in np.asarray(a).ravel()[:12]])
+
+
+def _attrs_canon(est, X):
+    """the clustering an estimator reports through its attributes, in the canonical form of `canon`"""
+    from enspara.cluster import util
+    return canon(util.ClusterResult(center_indices=est.center_indices_, distances=est.distances_,
+                                    assignments=est.labels_, centers=est.centers_), X)
+
+
+def _read_after_fit(est, how, Xp, when, fit_kw=None):
+    """fits `est` on Xp and reads it the way `how` says: None = nothing is read; "attrs" = every public attribute;
+    "fit_predict" = sklearn's fit_predict (fit, then labels_); "predict" = predict on the same data (reads centers_).
+    Returns what the reads disagree about with the result_ of that fit."""
+    fit_kw = fit_kw or {}
+    out = []
+    if how == "fit_predict":
+        lab = est.fit_predict(Xp, **fit_kw)
+        if not np.array_equal(np.asarray(lab), np.asarray(est.result_.assignments)):
+            out.append("%s: fit_predict returned %s, result_.assignments is %s" % (when, _short(lab), _short(est.result_.assignments)))
+        return out
+    est.fit(Xp, **fit_kw)
+    if how == "attrs":
+        out += _attr_problems(est, when)
+    elif how == "predict":
+        r = est.predict(Xp)
+        cen = est.result_.centers
+        if len(r.centers) != len(cen) or not all(_same_frame(a, b) for a, b in zip(r.centers, cen)):
+            out.append("%s: predict did not report the centres of that fit" % when)
+    return out
+
+
 def _reuse(est, h, final, X, prefit_kw=None):
     """estimator history between construction and the fit under test: optional earlier fit (same or other
-    data), then the parameters are brought to `final` through set_params and / or attribute assignment"""
+    data; the estimator is then read as h["read"] says), then the parameters are brought to `final` through
+    set_params and / or attribute assignment.  Returns what the reads of the earlier fit disagree about."""
+    out = []
     if h.get("prefit"):
         Xp = X if h["prefit"] == "same" else X[list(h["perm"])]
-        est.fit(Xp, **(prefit_kw or {}))
+        out += _read_after_fit(est, h.get("read"), Xp, "earlier fit (%s data)" % h["prefit"], prefit_kw)
     for j, nm in enumerate(sorted(final)):
         if h["via"] == "set_params" or (h["via"] == "both" and j % 2 == 0):
             est.set_params(**{nm: final[nm]})
         else:
             setattr(est, nm, final[nm])
+    return out
+
+
+def _warm_from_estimator(est, c, X, final, zero):
+    """init_form "estimator": the estimator is first fitted with exactly the frames c["init"] as centres (their
+    number requested, no radius, `zero` = parameters switching refinement off), est.centers_ is read and kept as
+    the initial centres of the fit under test, and the parameters are set to `final`"""
+    idx = list(c["init"])
+    est.set_params(**dict(zero, n_clusters=len(idx), cluster_radius=None))
+    est.fit(X, init_centers=X[idx])
+    out = _attr_problems(est, "fit that supplies est.centers_ as initial centres")
+    cen = est.centers_
+    est.set_params(**final)
+    return cen, out
 
 
 def run_case(c):
@@ -334,8 +428,10 @@ def _run_case(c):
     h0 = xhash(X)
     out = {}
     arg_problems = []
+    attr_problems = []
     try:
-        out["D"] = [[str(v) for v in row] for row in dist_matrix(X, plain)]
+        # with virtual frames the matrix covers data + supplied centre points (rows / columns n.. are the points)
+        out["D"] = [[str(v) for v in row] for row in dist_matrix(make_pool(c) if c.get("vinit") else X, plain)]
         kind = c["kind"]
         hist = c.get("hist")
         if kind == "kcenters":
@@ -343,13 +439,21 @@ def _run_case(c):
             if c.get("form") == "class":
                 a0 = hist["ctor"] if hist else {"nclu": c["nclu"], "cutoff": c["cutoff"]}
                 est = KC.KCenters(metric, n_clusters=a0["nclu"], cluster_radius=a0["cutoff"])
+                final = {"n_clusters": c["nclu"], "cluster_radius": c["cutoff"]}
                 if hist:
-                    _reuse(est, hist, {"n_clusters": c["nclu"], "cluster_radius": c["cutoff"]}, X)
+                    attr_problems += _reuse(est, hist, final, X)
+                if c.get("init_form") == "estimator":
+                    cen0, pr = _warm_from_estimator(est, c, X, final, {})
+                    ini.adopt(cen0)
+                    attr_problems += pr
                 est.fit(X, init_centers=ini.obj)
                 res = est.result_
                 out["attrs_ok"] = bool(np.array_equal(est.labels_, res.assignments) and
                                        np.array_equal(est.distances_, res.distances) and
                                        list(est.center_indices_) == list(res.center_indices))
+                attr_problems += _attr_problems(est, "fit under test")
+                if not c.get("vinit"):
+                    out["attrs"] = _attrs_canon(est, X)
             else:
                 kw = {}
                 if c["nclu"] is not None or c.get("explicit_none"):
@@ -360,6 +464,20 @@ def _run_case(c):
                                   use_triangle_inequality=bool(c.get("ti")), **kw)
             out["res"] = canon(res, X)
             arg_problems += ini.problems()
+            out["n_centers"] = len(res.centers)
+            if c.get("vinit"):
+                # the supplied points stay the first centres, every further centre is the frame at its index; and the
+                # same call with the other setting of the triangle-inequality shortcut (same argument objects)
+                k0 = c["vinit"]
+                P = make_pool(c)[c["n"]:]
+                out["centers_kept"] = bool(
+                    len(res.centers) == len(res.center_indices) >= k0
+                    and all(_same_frame(res.centers[j], P[j]) for j in range(k0))
+                    and all(_same_frame(res.centers[j], X[int(res.center_indices[j])]) for j in range(k0, len(res.centers))))
+                if c.get("form") != "class":
+                    oth = KC.kcenters(X, metric, init_centers=ini.obj, use_triangle_inequality=not c.get("ti"), **kw)
+                    out["other"] = canon(oth, X)
+                    arg_problems += [m for m in ini.problems() if m not in arg_problems]
             if c.get("form") == "class" and hist:
                 # the same fit through the function form with the estimator's current parameters, and a second fit
                 ref = KC.kcenters(X, plain, n_clusters=c["nclu"], dist_cutoff=c["cutoff"],
@@ -368,6 +486,7 @@ def _run_case(c):
                 if hist.get("refit"):
                     est.fit(X, init_centers=_Init(c, X, plain, form="array").obj)
                     out["refit_equal"] = bool(canon(est.result_, X) == out["res"])
+                    attr_problems += _attr_problems(est, "second fit on the same data")
         elif kind == "kmedoids":
             rec = RecordingRandomState(c["seed"])
             dmf = util._get_distance_method(metric)
@@ -393,13 +512,15 @@ def _run_case(c):
                 saved = np.random.get_state()
                 try:
                     if hist:
-                        _reuse(est, hist, {"n_clusters": start["k"], "n_iters": c["n_iters"]}, X,
-                               prefit_kw={"cluster_center_inds": [0]})
+                        attr_problems += _reuse(est, hist, {"n_clusters": start["k"], "n_iters": c["n_iters"]}, X,
+                                                prefit_kw={"cluster_center_inds": [0]})
                     np.random.seed(c["seed"])
                     args = mk()
                     snap = {k: (list(v) if isinstance(v, list) else v.copy()) for k, v in args.items()}
                     est.fit(X, **args)
                     res = est.result_
+                    attr_problems += _attr_problems(est, "fit under test")
+                    out["attrs"] = _attrs_canon(est, X)
                     out["args_unchanged"] = all(np.array_equal(np.asarray(args[k]), np.asarray(snap[k])) for k in snap)
                 finally:
                     np.random.set_state(saved)
@@ -430,12 +551,14 @@ def _run_case(c):
                 ci_arg = list(start["ctrs"])
                 res = KM.kmedoids(X, metric, cluster_center_inds=ci_arg, **kw)
                 out["args_unchanged"] = (ci_arg == list(start["ctrs"]))
+                mkstart = lambda: dict(cluster_center_inds=list(start["ctrs"]))
             elif start["how"] == "pairs":
                 lens = start["lengths"]
                 flat = [sum(lens[:t]) + f for t, f in start["pairs"]]
                 out["start_ctrs"] = flat
                 res = KM.kmedoids(X, metric, cluster_center_inds=[list(p) for p in start["pairs"]],
                                   X_lengths=lens, **kw)
+                mkstart = lambda: dict(cluster_center_inds=[list(p) for p in start["pairs"]], X_lengths=list(lens))
             else:  # "state": consistent (centres, labels, distances) from a k-centers run
                 r0 = KC.kcenters(X, metric, n_clusters=start["k"])
                 out["start_ctrs"] = [int(i) for i in r0.center_indices]
@@ -446,8 +569,29 @@ def _run_case(c):
                 out["args_unchanged"] = bool(np.array_equal(a_arg, r0.assignments) and np.array_equal(d_arg, r0.distances)
                                              and (ci is None or [int(i) for i in ci] == [int(i) for i in ci_copy]))
                 out["result_aliases_args"] = bool(np.shares_memory(res.assignments, a_arg) or np.shares_memory(res.distances, d_arg))
+                mkstart = lambda: dict(assignments=r0.assignments.copy(), distances=r0.distances.copy(),
+                                       **({} if ci_copy is None else {"cluster_center_inds": [int(i) for i in ci_copy]}))
             out["res"] = canon(res, X)
             out["proposals_log"] = list(rec.log)
+            if c.get("proposals") is not None and c.get("form") != "class" and start["how"] != "cold" and c.get("extras", True) is not False:
+                # explicit proposals, no random_state: nothing is left to chance, so identical calls under different
+                # states of NumPy's global generator give one outcome, that of one-sweep calls composed by hand
+                saved = np.random.get_state()
+                try:
+                    runs = []
+                    for g in (1, 2, 3):
+                        np.random.seed((c["seed"] + 7919 * g) % 2 ** 32)
+                        runs.append(canon(KM.kmedoids(X, metric, n_iters=c["n_iters"], proposals=list(c["proposals"]),
+                                                      random_state=None, **mkstart()), X))
+                    np.random.seed((c["seed"] + 4) % 2 ** 32)
+                    r = KM.kmedoids(X, metric, n_iters=1, proposals=list(c["proposals"]), random_state=None, **mkstart())
+                    for _ in range(c["n_iters"] - 1):
+                        r = KM.kmedoids(X, metric, n_iters=1, proposals=list(c["proposals"]), random_state=None,
+                                        assignments=r.assignments.copy(), distances=r.distances.copy(),
+                                        cluster_center_inds=[int(i) for i in r.center_indices])
+                    out["explicit_runs"], out["explicit_composed"] = runs, canon(r, X)
+                finally:
+                    np.random.set_state(saved)
             if c.get("extras") and start["how"] != "cold":
                 out["prefix"] = []
                 for j in range(1, c["n_iters"] + 1):
@@ -462,12 +606,19 @@ def _run_case(c):
                 a0 = hist["ctor"] if hist else {"nclu": c["nclu"], "cutoff": c["cutoff"], "n_iters": c["n_iters"]}
                 est = KH.KHybrid(metric, n_clusters=a0["nclu"], cluster_radius=a0["cutoff"],
                                  kmedoids_updates=a0["n_iters"], random_state=rec)
+                final = {"n_clusters": c["nclu"], "cluster_radius": c["cutoff"], "kmedoids_updates": c["n_iters"]}
                 if hist:
-                    _reuse(est, hist, {"n_clusters": c["nclu"], "cluster_radius": c["cutoff"],
-                                       "kmedoids_updates": c["n_iters"]}, X)
-                    rec.log = []          # proposals of the earlier fit are not part of the run under test
+                    attr_problems += _reuse(est, hist, final, X)
+                if c.get("init_form") == "estimator":
+                    cen0, pr = _warm_from_estimator(est, c, X, final, {"kmedoids_updates": 0})
+                    ini.adopt(cen0)
+                    attr_problems += pr
+                rec.log = []              # proposals of earlier fits are not part of the run under test
                 est.fit(X, init_centers=ini.obj)
                 res = est.result_
+                attr_problems += _attr_problems(est, "fit under test")
+                if c.get("init_pts") is None:
+                    out["attrs"] = _attrs_canon(est, X)
             else:
                 kw = {}
                 if c["nclu"] is not None:
@@ -502,6 +653,8 @@ def _run_case(c):
     out["X_unchanged"] = (xhash(X) == h0)
     if arg_problems:
         out["arg_problems"] = arg_problems
+    if attr_problems:
+        out["attr_problems"] = attr_problems
     return out
 
 
@@ -569,6 +722,23 @@ def inv_failures(out, tag=""):
     return fails
 
 
+def attr_failures(out):
+    """the estimator's public attributes (labels_, distances_, center_indices_, centers_), read after every fit of
+    the case's history, are those of that fit's result_, and the clustering they describe after the fit under test
+    meets C01's clauses on its own"""
+    fails = [("estimator-attrs", m) for m in out.get("attr_problems", [])]
+    if "attrs" in out and "res" in out:
+        if out["attrs"] != out["res"] and not fails:
+            fails.append(("estimator-attrs", "attributes after the fit under test describe centres %s labels %s, result_ has %s %s" % (
+                out["attrs"]["ctrs"], out["attrs"]["asg"], out["res"]["ctrs"], out["res"]["asg"])))
+        try:
+            sub = inv_failures(dict(out, res=out["attrs"]))
+        except Exception as ex:            # e.g. attributes of a fit on other data: wrong number of frames
+            sub = [("estimator-attrs", "the attributes do not describe a clustering of the data: %s" % type(ex).__name__)]
+        fails += [(k, "estimator attributes: " + m) for k, m in sub if k != "input-modified"]
+    return fails
+
+
 def hist_failures(c, out):
     """estimator form = function form called with the estimator's *current* parameters, whatever happened to
     the estimator between construction and this fit (set_params, attribute assignment, earlier fits)"""
@@ -584,6 +754,25 @@ def hist_failures(c, out):
         if len(out.get("proposals_log", [])) != k * c["n_iters"]:
             fails.append(("sweep-count", "%d proposals were drawn for %d clusters and %d requested sweeps" % (
                 len(out.get("proposals_log", [])), k, c["n_iters"])))
+    return fails
+
+
+def explicit_failures(c, out):
+    """reproducibility with explicitly supplied proposals and no random_state"""
+    fails = []
+    runs = out.get("explicit_runs")
+    if runs:
+        brief = lambda r: (r["ctrs"], r["asg"])
+        if any(r != runs[0] for r in runs[1:]):
+            fails.append(("not-reproducible", "identical calls with proposals=%s, n_iters=%d, random_state=None gave different outcomes "
+                          "under different states of the global NumPy generator: %s" % (c["proposals"], c["n_iters"], [brief(r) for r in runs])))
+        elif runs[0] != out["explicit_composed"]:
+            fails.append(("not-reproducible", "proposals=%s, n_iters=%d, random_state=None gives %s, but %d one-sweep calls with the same "
+                          "proposals composed by hand give %s" % (c["proposals"], c["n_iters"], brief(runs[0]), c["n_iters"],
+                                                                  brief(out["explicit_composed"]))))
+        if "res" in out and runs[0] != out["res"] and not fails:
+            fails.append(("not-reproducible", "proposals=%s: the outcome depends on the random_state although every proposal is supplied: "
+                          "%s with random_state=None, %s with a seeded RandomState" % (c["proposals"], brief(runs[0]), brief(out["res"]))))
     return fails
 
 
@@ -633,6 +822,9 @@ def gen_init_form(rng):
     return rng.choice(["array", "array", "list", "list", "result"])
 
 
+READS = ["attrs", "attrs", "fit_predict", "predict", None]
+
+
 def gen_hist(rng, c):
     """estimator-reuse history for an estimator-form case: the estimator is constructed with other stopping
     parameters, optionally fitted (same / other data), then brought to the case's parameters"""
@@ -640,6 +832,8 @@ def gen_hist(rng, c):
     h = {"via": rng.choice(["set_params", "attr", "both"]), "prefit": rng.choice([None, None, "same", "other"])}
     if h["prefit"] == "other":
         h["perm"] = rng.sample(range(n), rng.randint(1, n))
+    if h["prefit"]:
+        h["read"] = rng.choice(READS)         # how the estimator is read between the earlier fit and the fit under test
     if c["kind"] == "kmedoids":
         h["ctor"] = {"k": rng.choice([None, 1, 2, c["start"]["k"]]), "n_iters": rng.randint(1, 4)}
         return h
@@ -705,6 +899,105 @@ def gen_traj_kcenters(rng):
             c["hist"] = gen_hist(rng, c)
     if rng.random() < 0.15:
         c["buf"] = True
+    return c
+
+
+def _captures_all(dist, n, k0):
+    """every supplied centre is the nearest one (first minimum) of at least one frame; dist(j, f) exact"""
+    got = set()
+    for f in range(n):
+        got.add(min(range(k0), key=lambda j: (dist(j, f), j)))
+    return len(got) == k0
+
+
+def gen_nonframe_warm(rng, kind=None, his=(4, 6, 10)):
+    """warm start from 1..3 supplied centres that are NOT frames of the data (centroids, centres of an earlier
+    clustering of other data; what upstream's hot-start test passes): `vinit` virtual frames n.. of the pool.
+    Library metrics: points with coordinates on the quarter grid (distinct from every frame; sums of squares and
+    manhattan sums exact in float32/64); table metrics: further points of the same table (ndarray of indices or
+    md.Trajectory).  Every supplied centre attracts at least one frame, so that the labels are 0..k-1.
+    c["init"] holds the virtual indices n.., so replay and model run on the (n+k0)^2 matrix unchanged."""
+    kind = kind or rng.choice(["euclidean", "euclidean", "manhattan", "matrix", "traj"])
+    while True:
+        n = rng.randint(4, 12)
+        k0 = rng.randint(1, 3)
+        c = {"kind": "kcenters", "n": n, "vinit": k0, "init": list(range(n, n + k0)), "form": "func"}
+        if kind in ("matrix", "traj"):
+            M, tri = gen_matrix(rng, n + k0, rng.choice([3, 6, 12]))
+            if kind == "traj":
+                M = [[str(F(v)) for v in row] for row in M]
+                c["traj"] = True
+            c.update(metric="matrix", M=M, tri=tri)
+            ok = _captures_all(lambda j, f: F(M[n + j][f]), n, k0)
+        else:
+            dim = rng.randint(1, 3)
+            hi = rng.choice(his)
+            X = gen_points(rng, n, dim, hi)
+            P = []
+            while len(P) < k0:
+                p = [F(rng.randrange(-4, 4 * hi + 4), 4) for _ in range(dim)]
+                if all(list(p) != [F(v) for v in x] for x in X) and p not in P:
+                    P.append(p)
+            if kind == "manhattan":
+                dist = lambda j, f: sum(abs(a - b) for a, b in zip(P[j], X[f]))
+            else:
+                dist = lambda j, f: sum((a - b) ** 2 for a, b in zip(P[j], X[f]))
+            ok = _captures_all(dist, n, k0)
+            c.update(metric=kind, X=X, init_pts=[[float(v) for v in p] for p in P],
+                     dtype=rng.choice(["float64", "float64", "float32"]))
+            if rng.random() < 0.3:
+                c["layout"] = rng.choice(LAYOUTS)
+        if ok:
+            break
+    c["init_form"] = rng.choice(["array", "array", "list"])
+    mode = rng.choice(["k", "k", "k", "r", "both"])
+    c["nclu"] = k0 + rng.randint(1, max(1, min(5, n - k0))) if mode in ("k", "both") else None
+    c["cutoff"] = rng.choice([1, 2, 3, 1.5, 2.5]) if mode in ("r", "both") else None
+    c["ti"] = rng.random() < 0.7
+    if not c["ti"] and rng.random() < 0.3:
+        c["form"] = "class"
+    if rng.random() < 0.1:
+        c["buf"] = True
+    return c
+
+
+def gen_nonframe_line(rng, kind):
+    """non-frame warm start on a line, built so that the bound of the shortcut matters: supplied centre P, its nearest
+    frame at P - a, a frame at P + b and the farthest frame at P + L with L/2 < b <= (L + a)/2 and a <= b.  The frame at
+    P + b is closer to the new centre (P + L) than to P, and it is skipped if centre-to-new-centre distances are
+    measured from the nearest frame of P (distance L + a) instead of from P itself (distance L).  Positions on the
+    quarter grid; table metrics use 4 x positions (integers)."""
+    while True:
+        L = F(rng.randint(8, 48), 4)
+        b = F(rng.randint(int(2 * L) + 1, int(4 * L) - 1), 4)            # L/2 < b < L
+        lo = max(F(1, 4), 2 * b - L)
+        a = F(rng.randint(int(4 * lo), int(4 * b)), 4)                    # max(1/4, 2b - L) <= a <= b
+        p = F(rng.randint(0, 40), 4)
+        pos = [p - a, p + b, p + L]
+        for _ in range(rng.randint(0, 5)):                                # bystanders left of P + L, not nearer to P than a
+            q = p + F(rng.randint(-int(4 * L) + 1, int(4 * L) - 1), 4)
+            if abs(q - p) >= a and q not in pos:
+                pos.append(q)
+        P = [p]
+        if rng.random() < 0.4:                                            # a second supplied centre with its own frame, far left
+            P.append(p - 3 * L - F(1, 4))
+            pos.append(p - 3 * L)
+        if p in pos or len(set(pos)) != len(pos):
+            continue
+        rng.shuffle(pos)
+        break
+    n, k0 = len(pos), len(P)
+    c = {"kind": "kcenters", "n": n, "vinit": k0, "init": list(range(n, n + k0)), "form": "func", "ti": True,
+         "init_form": rng.choice(["array", "list"]), "nclu": k0 + rng.randint(1, 2), "cutoff": None, "line": True}
+    if kind in ("matrix", "traj"):
+        z = [int(4 * v) for v in pos + P]
+        M = [[abs(u - v) for v in z] for u in z]
+        if kind == "traj":
+            M = [[str(v) for v in row] for row in M]
+            c["traj"] = True
+        c.update(metric="matrix", M=M, tri=True)
+    else:
+        c.update(metric=kind, X=[[float(v)] for v in pos], init_pts=[[float(v)] for v in P], dtype=rng.choice(["float64", "float32"]))
     return c
 
 
@@ -819,6 +1112,159 @@ def _as_class(rng, c):
     return True
 
 
+def gen_wide(rng, kind, dtype, pred=lambda c: True):
+    """a case of entry point `kind` on 48..100 (now and then 8..256) features under the euclidean metric: arbitrary float32 / float64
+    coordinates in (-10, 10), as for real feature vectors (sums of their squares are not exact in float64).  The
+    triangle shortcut is left off (its comparisons are not claimed to survive rounding)."""
+    gens = {"kcenters": gen_kcenters, "kmedoids": gen_kmedoids, "hybrid": gen_hybrid}
+    while True:
+        c = gens[kind](rng)
+        if c["n"] >= 4 and pred(c):
+            break
+    for k in ("M", "tri", "layout", "buf", "scale_exp"):
+        c.pop(k, None)
+    n = c["n"]
+    d = rng.choice([48, 48, 49, 50, 64, 100, rng.randint(48, 100), rng.randint(48, 100), rng.choice([8, 16, 32, 128, 256])])
+    f32 = lambda v: struct.unpack("f", struct.pack("f", v))[0]
+    rows = set()
+    while len(rows) < n:
+        row = [rng.uniform(-10, 10) for _ in range(d)]
+        rows.add(tuple(f32(v) for v in row) if dtype == "float32" else tuple(row))
+    c.update(metric="euclidean", dtype=dtype, X=[list(r) for r in rows], wide=d)
+    if c.get("cutoff") is not None:
+        c["cutoff"] = float(rng.choice([1, 50, 60, 75]))       # typical distance: sqrt(66.7 d) = 56 .. 82
+    if kind == "kcenters":
+        c["ti"] = False
+    return c
+
+
+def gen_wide_stream(rng, reps=1):
+    """wide feature vectors through every entry point, both float dtypes"""
+    out = []
+    for _ in range(reps):
+        for dtype in ("float32", "float64"):
+            for kind in ("kcenters", "hybrid"):
+                for form in ("func", "class"):
+                    for warm in (False, True):
+                        out.append(gen_wide(rng, kind, dtype, lambda c: c.get("form") == form and (c.get("init") is not None) == warm))
+            for how in ("cold", "centers", "state", "pairs"):
+                out.append(gen_wide(rng, "kmedoids", dtype, lambda c: c["start"]["how"] == how and c["form"] == "func"))
+            out.append(gen_wide(rng, "kmedoids", dtype, lambda c: c["form"] == "class"))
+    return out
+
+
+# ----------------------------------------------------------------------------- more than 2^16 frames
+BIG_BLOCK = 1 << 16
+
+
+def gen_big_kmedoids(rng, where="end"):
+    """a k-medoids sweep on 65537..70000 frames on a line (k = 2, explicit proposals), held as a recipe: a run of
+    `L` consecutive integer positions 0..L-1 plus a far group of `t` positions -T-t+1..-T, all one cluster around the
+    medoid at position p, and three frames far to the right as the second cluster.  The group of t frames sits at the
+    end / start / middle of the array.  p is at or right of the mean of the whole cluster, the proposal q lies between
+    p and the mean of the run: moving the medoid to q lowers the cost of the run and raises the total cost, so the
+    far group decides the accept test."""
+    n = rng.randint(BIG_BLOCK + 1, 70000)
+    t = n % BIG_BLOCK if where == "end" else rng.randint(200, 4000)
+    if t < 40:                                   # too few frames to outweigh anything: take a longer array
+        n += 500
+        t = n % BIG_BLOCK if where == "end" else t
+    L = n - t - 3
+    T = rng.randint(L // 2, 2 * L)
+    # mean of run + far group (exact)
+    tot = F(L * (L - 1), 2) + sum(F(-T - j) for j in range(t))
+    mean_all = tot / (L + t)
+    mean_run = F(L - 1, 2)
+    lo = int(mean_all) + 1 if mean_all >= 0 else 0
+    hi = int(mean_run)
+    p = rng.randint(lo, min(hi - 2, lo + 50))
+    q = rng.randint(p + 1, min(hi, p + rng.choice([1, 5, 50, 500])))
+    return {"kind": "kmedoids_big", "n": n, "t": t, "L": L, "T": T, "p": p, "q": q, "where": where,
+            "n_iters": rng.randint(1, 2), "perm_seed": rng.randrange(10 ** 6), "dtype": rng.choice(["float64", "float64", "float32"]),
+            "metric": rng.choice(["euclidean", "manhattan"])}
+
+
+def _big_positions(c):
+    rs = np.random.RandomState(c["perm_seed"])
+    L, t, T = c["L"], c["t"], c["T"]
+    lead = np.concatenate([np.arange(L, dtype=np.int64), 3 * L + 2 * T + np.arange(3, dtype=np.int64) * 7])
+    lead = lead[rs.permutation(len(lead))]
+    far = -T - np.arange(t, dtype=np.int64)
+    if c["where"] == "end":
+        return np.concatenate([lead, far])
+    if c["where"] == "start":
+        return np.concatenate([far, lead])
+    cut = len(lead) // 2
+    return np.concatenate([lead[:cut], far, lead[cut:]])
+
+
+def run_big(c):
+    from enspara.cluster import kmedoids as KM
+    pos = _big_positions(c)
+    X = pos.astype(c["dtype"]).reshape(-1, 1)
+    h0 = hashlib.sha256(X.tobytes()).hexdigest()
+    idx = {int(v): i for i, v in enumerate(pos)}
+    c1 = 3 * c["L"] + 2 * c["T"]
+    start = [idx[c["p"]], idx[c1]]
+    props = [idx[c["q"]], idx[c1]]
+    out = {"start": start, "proposals": props}
+
+    def exact_cost(ctr_idx):
+        d = np.abs(pos[:, None] - pos[np.asarray(ctr_idx, dtype=int)][None, :])
+        m = d.min(axis=1)
+        return int((m * m).sum()), d
+
+    saved = np.random.get_state()
+    try:
+        with Watchdog(60):
+            np.random.seed(c["perm_seed"])
+            res = KM.kmedoids(X, c["metric"], cluster_center_inds=list(start), n_iters=c["n_iters"], proposals=list(props))
+        ci = [int(i) for i in res.center_indices]
+        out["ctrs"] = ci
+        out["before"], _ = exact_cost(start)
+        out["after"], d = exact_cost(ci)
+        asg = np.asarray(res.assignments)
+        dst = np.asarray(res.distances)
+        out["k"] = len(ci)
+        out["labels_ok"] = bool(asg.shape == (len(pos),) and asg.min() >= 0 and asg.max() < len(ci))
+        if out["labels_ok"]:
+            own = d[np.arange(len(pos)), asg]
+            out["distances_ok"] = bool(np.array_equal(dst, own.astype(float)))
+            out["nearest_ok"] = bool(np.array_equal(own, d.min(axis=1)))
+        out["centers_ok"] = bool(len(res.centers) == len(ci) and all(np.array_equal(np.asarray(a), X[i]) for a, i in zip(res.centers, ci)))
+        out["reported"] = str(F(float(np.sum(np.square(dst.astype(float))))))
+    except Exception as ex:
+        out["err"] = type(ex).__name__
+        out["msg"] = str(ex)[:200]
+    finally:
+        np.random.set_state(saved)
+    out["X_unchanged"] = hashlib.sha256(X.tobytes()).hexdigest() == h0
+    return out
+
+
+def big_failures(c, out):
+    if "err" in out:
+        return [err_failure(out)]
+    what = "%d frames on a line (%d consecutive positions, %d far frames at the %s of the array), medoids at frames %s, proposals %s, %d sweep(s)" % (
+        c["n"], c["L"], c["t"], c["where"], out["start"], out["proposals"], c["n_iters"])
+    fails = []
+    if out["after"] > out["before"]:
+        fails.append(("cost-increased", "%s: the sum of squared distances went from %d to %d (centres %s)" % (what, out["before"], out["after"], out["ctrs"])))
+    if out["k"] != 2:
+        fails.append(("k-changed", "%s: %d centres came back" % (what, out["k"])))
+    if not out["labels_ok"]:
+        fails.append(("label-range", what))
+    elif not out["distances_ok"]:
+        fails.append(("distance-value", "%s: a reported distance is not the distance to the centre of the frame's label" % what))
+    elif not out["nearest_ok"]:
+        fails.append(("closer-center", "%s: some frame has a closer centre than its own" % what))
+    if not out["centers_ok"]:
+        fails.append(("center-not-in-data", "%s: a reported centre is not the frame at its index" % what))
+    if not out["X_unchanged"]:
+        fails.append(("input-modified", "the data array was modified"))
+    return fails
+
+
 def gen_axis_streams(rng, kinds, reps=1):
     """cases that force every value of the input-class axes (memory layout of the data, container of the warm
     start centres, buffer-reusing metric, estimator-reuse histories) for every entry point in `kinds`
@@ -883,7 +1329,16 @@ def gen_axis_streams(rng, kinds, reps=1):
                         c["form"] = "func"
                     _tiny(rng, c)
                     out.append(c)
+            # explicit proposals over several sweeps, from every kind of supplied start state
+            if kind == "kmedoids":
+                for how in ("centers", "state", "pairs"):
+                    c = draw(kind, lambda c: c["start"]["how"] == how and c["n"] >= 5 and c["start"]["k"] >= 2)
+                    c["form"] = "func"
+                    c["proposals"] = [rng.randrange(c["n"]) for _ in range(c["start"]["k"])]
+                    c["n_iters"] = rng.randint(2, 4)
+                    out.append(c)
             # estimator-reuse histories
+            nread = 0
             for via in ("set_params", "attr", "both"):
                 for prefit in (None, "same", "other"):
                     c = draw(kind, lambda c: _as_class(rng, dict(c, start=dict(c.get("start", {})))))
@@ -891,9 +1346,28 @@ def gen_axis_streams(rng, kinds, reps=1):
                     h = gen_hist(rng, c)
                     h["via"], h["prefit"] = via, prefit
                     h.pop("perm", None)
+                    h.pop("read", None)
                     if prefit == "other":
                         h["perm"] = rng.sample(range(c["n"]), rng.randint(1, c["n"]))
+                    if prefit:               # every way of reading the estimator after the earlier fit, in turn
+                        h["read"] = ("attrs", "fit_predict", "predict")[nread % 3]
+                        nread += 1
                     c["hist"] = h
+                    out.append(c)
+            # warm start from est.centers_ of an earlier fit of the same estimator
+            if kind != "kmedoids":
+                for with_hist in (False, True):
+                    c = draw(kind)
+                    n = c["n"]
+                    c["init"] = rng.sample(range(n), rng.randint(1, min(3, n)))
+                    c["init_form"] = "estimator"
+                    if c["nclu"] is not None:
+                        c["nclu"] = min(n, len(c["init"]) + rng.randint(0, 3))
+                    _as_class(rng, c)
+                    if with_hist:
+                        h = gen_hist(rng, c)
+                        h.update(via="set_params", prefit="other", read="attrs", perm=rng.sample(range(n), rng.randint(1, n)))
+                        c["hist"] = h
                     out.append(c)
     return out
 
@@ -901,7 +1375,7 @@ def gen_axis_streams(rng, kinds, reps=1):
 def model_term(c, out):
     """Coq term of type st: the model run on the implementation's distance matrix and history."""
     n = c["n"]
-    Dt = "(Dext M %s)" % cn(n)
+    Dt = "(Dext M %s)" % cn(n + (c.get("vinit") or 0))
     kind = c["kind"]
 
     def kc(cc):
@@ -943,6 +1417,8 @@ def arg_terms(c):
 
 
 def coq_check(c, out):
+    if c.get("empty_init"):
+        return None            # witness of the known finding empty-initial-centre (C02): judged by the oracle only
     if c["kind"] == "kcenters" and c.get("form") != "class_invalid":
         nc, dc = arg_terms(c)
         n = c["n"]
@@ -950,12 +1426,23 @@ def coq_check(c, out):
             if out.get("err") == "ImproperlyConfigured":
                 return "(match effective %s %s with None => true | Some _ => false end)" % (nc, dc)
             return None
-        run = ("kcenters_cold (Dext M %s) k r %s %s" % (cn(n), cb(bool(c.get("ti"))), cn(n))) if c.get("init") is None else \
-              ("kcenters_warm (Dext M %s) k r %s %s %s" % (cn(n), cb(bool(c.get("ti"))), clist(c["init"], cn, "nat"), cn(n)))
+        N, res = n, out["res"]
+        if c.get("vinit"):
+            # supplied centres that are not frames: virtual frames n.. of the (n+k0)^2 matrix; the model's centre list
+            # names them by their virtual index, the implementation by the frame nearest to each (oracle: first-centres)
+            k0 = c["vinit"]
+            N = n + k0
+            if len(res["ctrs"]) < k0:
+                return None
+            res = dict(res, ctrs=list(c["init"]) + res["ctrs"][k0:])
+        run = ("kcenters_cold (Dext M %s) k r %s %s" % (cn(N), cb(bool(c.get("ti"))), cn(n))) if c.get("init") is None else \
+              ("kcenters_warm (Dext M %s) k r %s %s %s" % (cn(N), cb(bool(c.get("ti"))), clist(c["init"], cn, "nat"), cn(n)))
         return ("(let M := %s in valid_matrix M %s && match effective %s %s with Some (k, r) => st_eqb (%s) %s "
-                "| None => false end)%%bool") % (D_term(out), cn(n), nc, dc, run, res_term(out["res"]))
+                "| None => false end)%%bool") % (D_term(out), cn(N), nc, dc, run, res_term(res))
     if "res" not in out:
         return None
+    if c.get("wide"):
+        return None        # irrational distances: the float cost of a sweep is not the exact one the model compares; oracle only
     return "(let M := %s in valid_matrix M %s && st_eqb %s %s)%%bool" % (
         D_term(out), cn(c["n"]), model_term(c, out).split(" in ", 1)[1][:-1], res_term(out["res"]))
 
@@ -970,6 +1457,11 @@ def common_tags(c, out):
     t = [c["kind"], c["metric"]]
     if c.get("init") is not None:
         t.append("warm-init")
+    if c.get("vinit"):
+        t.append("non-frame-init")
+        t.append("non-frame-init-" + ("md-trajectory" if c.get("traj") else c["metric"]))
+        if c.get("ti"):
+            t.append("non-frame-init-ti")
     if c.get("ti"):
         t.append("ti")
     if c["kind"] == "kcenters" and c["metric"] == "euclidean" and any(float(v[0]) != int(v[0]) for v in c["X"] if len(v) == 1):
@@ -1002,9 +1494,16 @@ def common_tags(c, out):
             t.append("tiny-scale-start-without-centres")
     if c.get("buf"):
         t.append("buffer-reusing-metric")
+    if c.get("wide"):
+        t.append("wide-features")
+        t.append("wide-features-%s-%s" % (c["kind"], c["dtype"]))
+    if c["kind"] == "kmedoids" and c.get("proposals") is not None and c["n_iters"] >= 2 and out.get("explicit_runs"):
+        t.append("explicit-proposals-several-sweeps-no-random-state")
     if c.get("hist"):
         t.append("estimator-history")
         t.append("estimator-history-" + c["kind"])
         if c["hist"].get("prefit"):
             t.append("estimator-refit-" + c["hist"]["prefit"])
+            if c["hist"].get("read"):
+                t.append("estimator-read-%s-then-refit" % c["hist"]["read"])
     return t
